@@ -583,14 +583,15 @@ def check_C06(ctx, rt):
                     m = oracles.read_smiles(smi)
                 except oracles.SmilesError:
                     return
-                if any(a.aromatic for a in m.atoms):
-                    return
+                arom = any(a.aromatic for a in m.atoms)
                 viol = any(m.bond_sum(i) + (a.hcount or 0) > oracles.capacity(cur, a.element, a.charge)
                            for i, a in enumerate(m.atoms))
                 rejected = r == "err\tEncoderError"
                 if r.startswith("err") and not rejected:
                     return
-                if viol != rejected:
+                # (for aromatic input the bond sums depend on the kekulisation: only the consequence is judged -
+                # what strict accepts must decode, under the same table, to the same molecule)
+                if not arom and viol != rejected:
                     add_violation(ctx, "C06:strict-iff", "strict rejection does not coincide with a capacity violation",
                                   smiles=smi, table=table_, violates=viol, rejected=rejected)
                 if not rejected:
@@ -630,6 +631,11 @@ def check_C09(ctx, rt):
             else:
                 s = s[:pos] + rt.rng.choice(chars) + s[pos + 1:]
         mal.append(s)
+    # numbers that are fine for int() (<= 4300 digits) but beyond float range, in every numeric slot of a bracket atom,
+    # aromatic and not
+    big = "1" + "0" * 400
+    mal += ["[c-%s]1ccccc1" % big, "[n+%s]1ccccc1" % big, "c1cc[cH-%s]cc1" % big, "[C+%s]C" % big, "[%sC]C" % big,
+            "[CH%s]C" % big, "[nH%s]1cccc1" % big, "[%sc]1ccccc1" % big, "C[N+%s](C)C" % big]
     mal += ["C(" * 150 + "C" + ")C" * 150, "C1" * 40 + "C", "[" + "9" * 5000 + "C]", "[C+" + "9" * 5000 + "]", "C" * 5000,
             "C1" + "C" * 5000 + "1", "C%99" + "C" * 20 + "%99", "c1ccccc1" * 200]
     try:
